@@ -1348,4 +1348,76 @@ Proof.
     destruct (drive_all_ok s1 _ G1 Hok3 Hsz3) as [r2 [s2 [o2 [E2 _]]]]. rewrite E2. repeat split.
 Qed.
 
+(* ================= Parser::parse ================= *)
+Lemma state_ok_small s : state_ok s -> state_small s.
+Proof.
+  destruct s as [|p q|vars p q|i p q|i p q|i vars p q|r p q|r|e]; cbn [state_ok state_small]; try (intros; exact I);
+    intros [Hi _]; apply buf_ok_len in Hi; unfold SIZE_LIMIT; lia.
+Qed.
+
+Lemma parse_spec p new : parser_ok p -> bytes_ok new -> len new <= input_space p ->
+  exists rest s' o,
+    drive_all norm maxc (st p) (held p ++ new) = DOk rest s' o /\
+    sgood s' /\ bytes_ok o /\ bytes_ok rest /\ suffix rest (held p ++ new) /\ len rest <= cap p /\
+    (is_final (st p) = true -> s' = st p /\ rest = held p ++ new /\ o = []) /\
+    parse norm maxc p new =
+      if negb (is_final s') && (len rest =? cap p)
+      then POk (mkParser (cap p) rest (Fatal EStuckOnInput)) true o
+      else POk (mkParser (cap p) rest s') (is_final s') o.
+Proof.
+  intros [Hs [_ [Hh [Hc Hcap]]]] Hn Hsp. unfold input_space in Hsp.
+  assert (Hok : bytes_ok (held p ++ new)) by (apply bytes_ok_app; split; assumption).
+  assert (Hl : len (held p ++ new) <= cap p) by (rewrite len_app; lia).
+  destruct (drive_all_ok (st p) (held p ++ new) Hs Hok ltac:(lia)) as [rest [s' [o [E [G1 [G2 [G3 G4]]]]]]].
+  exists rest, s', o. pose proof (suffix_len _ _ G3) as Hr.
+  split; [exact E|]. split; [exact G1|]. split; [exact G2|].
+  split; [eapply suffix_ok; eassumption|]. split; [exact G3|]. split; [lia|]. split; [exact G4|].
+  unfold parse. destruct (N.ltb_spec (cap p - len (held p)) (len new)) as [?|_]; [lia|].
+  rewrite E. destruct (N.ltb_spec (len (held p ++ new)) (len rest)) as [?|_]; [lia|]. reflexivity.
+Qed.
+
+Lemma parse_total : parse_total_stmt norm maxc.
+Proof.
+  intros p new Hp Hn Hsp.
+  destruct (parse_spec p new Hp Hn Hsp) as [rest [s' [o [E [[G1 G1'] [G2 [G3 [G4 [G5 [_ Hparse]]]]]]]]]].
+  destruct Hp as [Hs [_ [Hh [Hc Hcap]]]].
+  destruct (negb (is_final s') && (len rest =? cap p)).
+  - exists (mkParser (cap p) rest (Fatal EStuckOnInput)), true, o. split; [exact Hparse|].
+    split; [|split; [reflexivity|split; [exact G2|exact G4]]].
+    split; [exact I|]. split; [exact I|]. cbn [held cap]. split; [exact G3|]. split; [exact G5|exact Hcap].
+  - exists (mkParser (cap p) rest s'), (is_final s'), o. split; [exact Hparse|].
+    split; [|split; [reflexivity|split; [exact G2|exact G4]]].
+    split; [exact G1|]. split; [apply state_ok_small; exact G1|]. cbn [held cap].
+    split; [exact G3|]. split; [exact G5|exact Hcap].
+Qed.
+
+Lemma parse_reported : parse_reported_stmt norm maxc.
+Proof.
+  intros p new p' o' Hp Hn Hsp H.
+  destruct (parse_spec p new Hp Hn Hsp) as [rest [s' [o [E [G1 [G2 [G3 [G4 [G5 [_ Hparse]]]]]]]]]].
+  rewrite Hparse in H. unfold input_space.
+  destruct (is_final s') eqn:F; cbn [negb andb] in H.
+  - inversion H.
+  - destruct (N.eqb_spec (len rest) (cap p)) as [Heq|Hne]; inversion H. cbn [cap held]. lia.
+Qed.
+
+Lemma parse_stuck : parse_stuck_stmt norm maxc.
+Proof.
+  intros p new p' d o' Hp Hn Hsp H Hsp' _.
+  destruct (parse_spec p new Hp Hn Hsp) as [rest [s' [o [E [G1 [G2 [G3 [G4 [G5 [_ Hparse]]]]]]]]]].
+  rewrite Hparse in H. unfold input_space in Hsp'.
+  destruct (is_final s') eqn:F; cbn [negb andb] in H.
+  - inversion H; subst. cbn [st]. split; [reflexivity|right; exact F].
+  - destruct (N.eqb_spec (len rest) (cap p)) as [Heq|Hne]; inversion H; subst; cbn [st cap held] in *.
+    + split; [reflexivity|left; reflexivity].
+    + lia.
+Qed.
+
+Lemma parse_sticky : parse_sticky_stmt norm maxc.
+Proof.
+  intros p new Hp F Hn Hsp.
+  destruct (parse_spec p new Hp Hn Hsp) as [rest [s' [o [E [G1 [G2 [G3 [G4 [G5 [G6 Hparse]]]]]]]]]].
+  destruct (G6 F) as [-> [-> ->]]. rewrite Hparse, F. reflexivity.
+Qed.
+
 End Drive.
